@@ -129,7 +129,7 @@ func squash(s string) string {
 func printNode(fset *token.FileSet, n any) string {
 	var b bytes.Buffer
 	if err := printer.Fprint(&b, fset, n); err != nil {
-		return "<print error: " + err.Error() + ">"
+		panic(fmt.Sprintf("go/printer cannot print %T: %v", n, err))
 	}
 	return squash(b.String())
 }
@@ -149,13 +149,25 @@ func goDirectives(groups ...*ast.CommentGroup) string {
 	return strings.Join(out, "\n")
 }
 
+// fieldList renders a receiver or type parameter list (go/printer does not print a bare *ast.FieldList).
+func fieldList(fset *token.FileSet, fl *ast.FieldList) string {
+	if fl == nil {
+		return ""
+	}
+	var parts []string
+	for _, f := range fl.List {
+		var names []string
+		for _, n := range f.Names {
+			names = append(names, n.Name)
+		}
+		parts = append(parts, strings.Join(names, ",")+" "+printNode(fset, f.Type))
+	}
+	return "(" + strings.Join(parts, ";") + ")"
+}
+
 // funcSig renders receiver and signature of a function declaration.
 func funcSig(fset *token.FileSet, recv *ast.FieldList, ft *ast.FuncType) string {
-	s := ""
-	if recv != nil {
-		s = printNode(fset, recv)
-	}
-	return s + "|" + printNode(fset, ft)
+	return fieldList(fset, recv) + "|" + printNode(fset, ft)
 }
 
 // tupleOf reduces one entity.
@@ -169,9 +181,7 @@ func tupleOf(fset *token.FileSet, e entRef) Tuple {
 		}
 		t.Dirs = goDirectives(e.fd.Doc)
 	case e.ts != nil:
-		if e.ts.TypeParams != nil {
-			t.Sig = printNode(fset, e.ts.TypeParams)
-		}
+		t.Sig = fieldList(fset, e.ts.TypeParams)
 		if e.ts.Assign.IsValid() {
 			t.Sig += "="
 		}
